@@ -445,9 +445,26 @@ def workload(ctx):
                 ctx.count("wide_nodes")
                 ctx.run("C09.deps", (e, rng.sample(FLAGS, 6)))
                 ctx.run("C09.counts", e)
+        # depth: one family nested in itself (a[i][j][k], a[a[a[i]]], f(f(f(x))), o.a.b.c,
+        # wrappers in wrappers), 3 .. 33 levels, every level with its own index / argument name;
+        # all 72 flag combinations on the small depths
+        fams = scale.family_towers()
+        for fam in ("subscript-aggregate", "subscript-index", "lookup", "call", "call-2nd-arg", "cse",
+                    "cse-prefixed", "if-branch", "if-condition", "sum-in-product", "power-tower", "min"):
+            for depth in (3, 4, 5, 6, 8, 12, 33):
+                if not ctx.mine("deep"):
+                    continue
+                for core in (p.Variable("u"), p.Subscript(p.Variable("u"), p.Variable("v"))):
+                    e = scale.nest(fams[fam], depth, core)
+                    ctx.case(("deep", fam, depth, type(core).__name__), True, n=0)
+                    ctx.count("deep_towers")
+                    sub_r = ctx.sub_rng("deep-flags", fam, depth)
+                    ctx.run("C09.deps", (e, FLAGS if depth <= 4 else sub_r.sample(FLAGS, 12)))
+                    ctx.run("C09.counts", e)
         for k, v in tr.handlers().items():
             ctx.count("handler:" + k, v)
     ctx.floor("wide_nodes", 150)
+    ctx.floor("deep_towers", 100)
     ctx.floor("big_expressions", 3)
     ctx.floor("dep_calls", 72 * 2 * 500)
     ctx.floor("history_calls", 3000)
